@@ -121,7 +121,7 @@ def _dot_product_degree(expr: object) -> Optional[int]:
     right = _vector_element_degrees(expr.right)  # type: ignore[attr-defined]
     if right is None:
         return None
-    return max((a + b for a, b in zip(left, right)), default=0)
+    return max(2, max((a + b for a, b in zip(left, right)), default=0))
 
 
 def _compute_degree_iterative(expr: Expression) -> Optional[int]:
@@ -328,7 +328,7 @@ def _compute_degree_impl(expr: Expression) -> Optional[int]:
         elem = _vector_element_degrees(expr.vector)
         if elem is None:
             return None
-        return 2 * max(elem, default=0)
+        return max(2, 2 * max(elem, default=0))
     if isinstance(expr, VectorPowerSum):
         # sum(x ** k) has degree k for non-negative integer k
         return _power_degree(expr.power)
@@ -561,9 +561,21 @@ def extract_linear_coefficient(expr: Expression, var: Variable) -> float:
     return _extract_coefficient_impl(expr, var)
 
 
+def _constant_value(expr: Expression) -> float | None:
+    """Value of a sub-expression that contains no variables (e.g. ``Constant(2) + 3``), else None."""
+    if isinstance(expr, Constant):
+        return float(expr.value)
+    if compute_degree(expr) == 0:
+        from optyx.core.expressions import get_all_variables
+
+        if not get_all_variables(expr):
+            return float(expr.evaluate({}))
+    return None
+
+
 def _extract_coefficient_impl(expr: Expression, var: Variable) -> float:
     """Recursive coefficient extraction."""
-    from optyx.core.vectors import LinearCombination, VectorSum
+    from optyx.core.vectors import LinearCombination, VectorSum, VectorPowerSum
 
     # Constant - contributes 0 to variable coefficient
     if isinstance(expr, Constant):
@@ -598,6 +610,14 @@ def _extract_coefficient_impl(expr: Expression, var: Variable) -> float:
                 return 1.0
         return 0.0
 
+    # VectorPowerSum is linear only for power 1 (sum(x)) or 0 (a constant)
+    if isinstance(expr, VectorPowerSum):
+        if expr.power == 1.0:
+            for v in expr.vector._variables:
+                if v.name == var.name:
+                    return 1.0
+        return 0.0
+
     # Binary operations
     if isinstance(expr, BinaryOp):
         if expr.op == "+":
@@ -611,17 +631,13 @@ def _extract_coefficient_impl(expr: Expression, var: Variable) -> float:
             ) - _extract_coefficient_impl(expr.right, var)
 
         if expr.op == "*":
-            # One side must be constant for linear expressions
-            if isinstance(expr.left, Constant):
-                return float(expr.left.value) * _extract_coefficient_impl(
-                    expr.right, var
-                )
-            if isinstance(expr.right, Constant):
-                return _extract_coefficient_impl(expr.left, var) * float(
-                    expr.right.value
-                )
-            # For linear expressions, at least one side must be constant
-            # This fallback handles edge cases where constants are nested
+            # One side must be constant-valued for linear expressions
+            left_const = _constant_value(expr.left)
+            if left_const is not None:
+                return left_const * _extract_coefficient_impl(expr.right, var)
+            right_const = _constant_value(expr.right)
+            if right_const is not None:
+                return _extract_coefficient_impl(expr.left, var) * right_const
             return 0.0
 
         if expr.op == "/":
@@ -681,7 +697,12 @@ def extract_constant_term(expr: Expression) -> float:
 
 def _extract_constant_impl(expr: Expression) -> float:
     """Recursive constant term extraction."""
-    from optyx.core.vectors import LinearCombination, VectorSum
+    from optyx.core.vectors import (
+        LinearCombination,
+        VectorPowerSum,
+        VectorSum,
+        VectorVariable,
+    )
 
     if isinstance(expr, Constant):
         return float(expr.value)
@@ -689,9 +710,29 @@ def _extract_constant_impl(expr: Expression) -> float:
     if isinstance(expr, Variable):
         return 0.0
 
-    # Vector expressions have no constant term (purely linear)
-    if isinstance(expr, (LinearCombination, VectorSum)):
+    # A variable-free sub-expression (e.g. Constant(2) ** 2) is its own constant term
+    const_value = _constant_value(expr)
+    if const_value is not None:
+        return const_value
+
+    # sum(x) has no constant term
+    if isinstance(expr, VectorSum):
         return 0.0
+
+    # c @ x has no constant term; c @ (expressions) collects the elements' constants
+    if isinstance(expr, LinearCombination):
+        if isinstance(expr.vector, VectorVariable):
+            return 0.0
+        return float(
+            sum(
+                float(expr.coefficients[i]) * _extract_constant_impl(elem)
+                for i, elem in enumerate(expr.vector._expressions)
+            )
+        )
+
+    # sum(x ** 0) is the constant n; sum(x ** 1) has no constant term
+    if isinstance(expr, VectorPowerSum):
+        return float(len(expr.vector._variables)) if expr.power == 0.0 else 0.0
 
     if isinstance(expr, BinaryOp):
         if expr.op == "+":
@@ -705,11 +746,13 @@ def _extract_constant_impl(expr: Expression) -> float:
             )
 
         if expr.op == "*":
-            # c * expr or expr * c
-            if isinstance(expr.left, Constant):
-                return float(expr.left.value) * _extract_constant_impl(expr.right)
-            if isinstance(expr.right, Constant):
-                return _extract_constant_impl(expr.left) * float(expr.right.value)
+            # c * expr or expr * c (c may itself be a constant-valued sub-expression)
+            left_const = _constant_value(expr.left)
+            if left_const is not None:
+                return left_const * _extract_constant_impl(expr.right)
+            right_const = _constant_value(expr.right)
+            if right_const is not None:
+                return _extract_constant_impl(expr.left) * right_const
             return 0.0
 
         if expr.op == "/":
@@ -722,6 +765,8 @@ def _extract_constant_impl(expr: Expression) -> float:
                 exp = int(expr.right.value)
                 if exp == 0:
                     return 1.0  # x**0 = 1
+                if exp == 1:
+                    return _extract_constant_impl(expr.left)  # e**1 = e
             return 0.0
 
     if isinstance(expr, UnaryOp):
@@ -901,10 +946,24 @@ def _extract_all_coefficients_impl(
         result: Output array to accumulate coefficients into.
         multiplier: Current coefficient multiplier from parent expressions.
     """
-    from optyx.core.vectors import LinearCombination, VectorSum, VectorVariable
+    from optyx.core.vectors import (
+        LinearCombination,
+        VectorPowerSum,
+        VectorSum,
+        VectorVariable,
+    )
 
     # Constant - no variable coefficients
     if isinstance(expr, Constant):
+        return
+
+    # VectorPowerSum is linear only for power 1 (sum(x)) or 0 (a constant)
+    if isinstance(expr, VectorPowerSum):
+        if expr.power == 1.0:
+            for var in expr.vector._variables:
+                idx = var_index.get(var.name)
+                if idx is not None:
+                    result[idx] += multiplier
         return
 
     # Variable - add coefficient at this variable's index
@@ -949,15 +1008,17 @@ def _extract_all_coefficients_impl(
             return
 
         if expr.op == "*":
-            # One side must be constant for linear expressions
-            if isinstance(expr.left, Constant):
+            # One side must be constant-valued for linear expressions
+            left_const = _constant_value(expr.left)
+            if left_const is not None:
                 _extract_all_coefficients_impl(
-                    expr.right, var_index, result, multiplier * float(expr.left.value)
+                    expr.right, var_index, result, multiplier * left_const
                 )
                 return
-            if isinstance(expr.right, Constant):
+            right_const = _constant_value(expr.right)
+            if right_const is not None:
                 _extract_all_coefficients_impl(
-                    expr.left, var_index, result, multiplier * float(expr.right.value)
+                    expr.left, var_index, result, multiplier * right_const
                 )
                 return
             # Both sides non-constant - no linear contribution
